@@ -296,6 +296,19 @@ namespace BitSerializer::Convert::Utf
 					}
 				}
 
+				// Only Unicode scalar values can be encoded (UTF-32 input may contain surrogates or values above U+10FFFF)
+				if constexpr (sizeof(InCharType) == sizeof(char32_t))
+				{
+					if (sym > 0x10FFFF || UnicodeTraits::IsInSurrogatesRange(sym))
+					{
+						++invalidSequencesCount;
+						if (!Detail::HandleEncodingError(outStr, errorPolicy, errorMark)) {
+							return UtfEncodingResult(UtfEncodingErrorCode::InvalidSequence, startTailPos, invalidSequencesCount);
+						}
+						continue;
+					}
+				}
+
 				if (sym < 0x800)
 				{
 					outStr.append({
@@ -439,11 +452,21 @@ namespace BitSerializer::Convert::Utf
 			}
 			else if constexpr (sizeof(TInCharType) == sizeof(char32_t))
 			{
+				size_t invalidSequencesCount = 0;
 				while (in != end)
 				{
+					TInIt startTailPos = in;
 					uint32_t sym = *in;
 					++in;
-					if (sym < 0x10000)
+					// Only Unicode scalar values can be encoded
+					if (sym > 0x10FFFF || UnicodeTraits::IsInSurrogatesRange(sym))
+					{
+						++invalidSequencesCount;
+						if (!Detail::HandleEncodingError(outStr, errorPolicy, errorMark)) {
+							return UtfEncodingResult(UtfEncodingErrorCode::InvalidSequence, startTailPos, invalidSequencesCount);
+						}
+					}
+					else if (sym < 0x10000)
 					{
 						outStr.push_back(static_cast<TOutChar>(sym));
 					}
@@ -455,6 +478,7 @@ namespace BitSerializer::Convert::Utf
 						outStr.push_back(static_cast<TOutChar>(UnicodeTraits::LowSurrogatesStart | (sym & 0x3FF)));
 					}
 				}
+				return UtfEncodingResult(UtfEncodingErrorCode::Success, in, invalidSequencesCount);
 			}
 			return UtfEncodingResult(UtfEncodingErrorCode::Success, in, 0);
 		}
